@@ -116,7 +116,9 @@ def execute(RetryingClient, attempts, rf, dnr, outcomes, variant, form=None):
         return spell([CLS.get(n, notexc) for n in sorted(names)])
 
     log = []
-    inner = Inner(outcomes, log)
+    # the wrapped client has the mapping protocol itself (Client, PooledClient) or has not (HashClient): rc[k] = v and del rc[k]
+    # are retried like any other call either way
+    inner = (Inner if (variant // 2) % 2 == 0 or form is None or form.startswith("__getitem__") else InnerBase)(outcomes, log)
     hdr = {"attempts": attempts, "rf": sorted(rf), "dnr": sorted(dnr), "delay": "delay"}
     try:
         rc = RetryingClient(inner, attempts=attempts, retry_delay=delay,
